@@ -122,9 +122,9 @@ template <typename A> std::string run(const std::vector<std::string>& w) {
     }
     if (op == "pfx" && w.size() >= 4) {
         A a = addr_of<A>(w[2]);
-        int p = std::atoi(w[3].c_str());
-        if (p < 0) throw bad_op();
+        int p = std::atoi(w[3].c_str());            // negative prefix lengths are passed on as they are
         AddressRange<A> r = a / p;
+        if (p < 0) return "accepted-negative-prefix " + ends(r);
         return "mask=" + Fam<A>::mask(p) + " " + ends(r) + " " + iterate(r, cap_arg(w, 4));
     }
     if (op == "msk" && w.size() >= 4) {
